@@ -33,3 +33,37 @@ Definition expected_gout (r : lres) : option (list gout) :=
   | LUndeclared => Some [GNotFoundA; GErrA]
   | LErr => None
   end.
+
+(* ---- the children a listing must report (Children / Load(recurse=false)): one node per present field / element / entry,
+   in wire order, with the node type and the bytes a lookup of that child gives *)
+Definition key_step (k : mkey) : pstep := match k with KStr b => PStrKey b | KInt _ v => PIntKey (to_s 64 v) end.
+Fixpoint index_children (t : ftype) (i : Z) (vs : list pval) : list atree :=
+  match vs with
+  | [] => []
+  | x :: r => ATree (PIndex i) (kind_of_type t) (encode_elem x) [] :: index_children t (i + 1) r
+  end.
+Definition spec_children (S : schema) (lbl : flabel) (t : ftype) (v : pval) : list atree :=
+  match lbl, v with
+  | LSingular, VMsg fs =>
+    match t with
+    | TMsg name =>
+      match find_msg S name with
+      | Some md => map (fun nv => match find_field md (fst nv) with
+                                  | Some fd => ATree (PField (fst nv)) (node_type (fd_label fd) (fd_type fd))
+                                                     (node_raw (fd_label fd) (fst nv) (snd nv)) []
+                                  | None => ATree (PField (fst nv)) 0 [] []
+                                  end) fs
+      | None => []
+      end
+    | TScalar _ => []
+    end
+  | LRepeated _, VList _ vs => index_children t 0 vs
+  | LMap _, VMap kvs => map (fun kx => ATree (key_step (fst kx)) (kind_of_type t) (encode_elem (snd kx)) []) kvs
+  | _, _ => []
+  end.
+
+(* the listing APIs skip the first record of a LIST child as length-delimited: repeated numeric fields must be packed
+   (no [packed = false]; the generator has none) *)
+Definition field_packed_okb (fd : fdesc) : bool :=
+  match fd_label fd with LRepeated p => Bool.eqb p (type_numeric (fd_type fd)) | _ => true end.
+Definition schema_packed_okb (S : schema) : bool := forallb (fun md => forallb field_packed_okb (md_fields md)) S.
